@@ -27,7 +27,7 @@ pub fn template(name: &str) -> &'static str {
         "WW" => "{wide_msg}{wide_bar}{spinner:>3}",
         "WnM" => "{wide_bar} {pos}/{len}\n{msg}\n{spinner}",          // a wide element on a line that is not the last
         "MnW" => "{msg}\n\n{prefix}{wide_msg}|\n{bar:3}",
-        "E" => "{eta} {eta_precise} {duration} {duration_precise} {per_sec} {elapsed} {elapsed_precise} {bytes_per_sec}|{spinner}",     // every time / rate key
+        "E" => "{eta} {eta_precise} {duration} {duration_precise} {per_sec} {elapsed} {elapsed_precise} {bytes_per_sec} {human_len} {human_pos} {total_bytes} {percent_precise}|{spinner}",     // every time / rate key
         "L" => "{msg:300}|{spinner:^600}|{bar:260}|{prefix:>257}",     // fields wider than any fixed buffer of blanks
         "bad" => "{:",
         _ => "{spinner} {bar} {msg}",
@@ -96,7 +96,7 @@ fn exec(w: &mut World, op: &Value) -> (String, String) {
             match catch_unwind(AssertUnwindSafe(move || {
                 let pb = ProgressBar::with_draw_target(if len < 0 { None } else { Some(len as u64) }, ProgressDrawTarget::term_like(Box::new(sp)));
                 pb.set_style(style);
-                pb.set_message("m");
+                pb.set_message("m\u{e9}\u{fc}\u{e9}\u{fc}\u{e9}\u{fc}\u{e9}\u{fc}\u{e9}\u{fc}\u{e9}\u{fc}");      // one-column letters of two bytes each: a cut of a truncating field lands inside them
                 pb
             })) {
                 Ok(pb) => { w.bar = Some((pb, spy)); ("ok".into(), String::new()) }
